@@ -143,6 +143,7 @@ def finish(rep, t0, seed, replay_only=False):
                     'a path/dataflow/finite-domain argument rather than by absence of the construct',
             'samples': samples[:60],
             'rules': rules,
+            'files_with_obligations': sorted({(o['where'] or '').split(':')[0] for o in rep.obl if o.get('where')}),
             'units_analysed': len(rep.units),
             'functions_analysed': len(rep.functions),
             'not_decided': rep.not_decided[:80],
